@@ -202,6 +202,7 @@ class Report:
                 "counts": self.counts,
                 "known_findings_matched": sorted(self.known_hit),
                 "library_functions_inspected": getattr(self, "functions_inspected", []),
+                "library_functions_under_shape_rules": getattr(self, "functions_shape", []),
                 "exhaustive": False,
             },
             "assumptions": self.assumptions,
